@@ -7,14 +7,6 @@ import BpProofs.JsonRtMain
 namespace Bp
 open Gen
 
-theorem markEmpty_jrt (S : Schema) (E : Enums) (cs : KeyCase) (v : Val) :
-    markEmpty S (jrt S E cs v) = jrt S E cs v := by
-  cases v with
-  | msg c sl ow unk cur => rw [jrt_msg, markEmpty]; split <;> rfl
-  | list xs => rw [jrt_list]; rfl
-  | dict ks vs => rw [jrt_dict]; rfl
-  | _ => rw [jrt_atom _ _ _ _ rfl]; rfl
-
 /-- the state of the instance after the `setattr`s for the fields below `idx` -/
 structure InstInv (S : Schema) (E : Enums) (cs : KeyCase) (fs : List FieldD) (n : Nat) (sl : List Val)
     (cur : List (Option Nat)) (idx : Nat) (st : MState) : Prop where
